@@ -42,10 +42,16 @@ fn skip_message(mut input: &[u8]) -> Option<&[u8]> {
                 // `#<n><length>` is followed by <length> bytes of arbitrary data.
                 Some(digits @ b'1'..=b'9') => {
                     let digits = (digits - b'0') as usize;
-                    let length = input.get(2..2 + digits)?;
-                    match core::str::from_utf8(length).ok().and_then(|l| l.parse::<usize>().ok()) {
-                        Some(length) => input.get(2 + digits + length..)?,
-                        None => &input[1..],
+                    // Anything but digits in the length field: this is not a block.
+                    if !input[2..].iter().take(digits).all(u8::is_ascii_digit) {
+                        &input[1..]
+                    }
+                    else {
+                        let length = input.get(2..2 + digits)?;
+                        match core::str::from_utf8(length).ok().and_then(|l| l.parse::<usize>().ok()) {
+                            Some(length) => input.get(2 + digits + length..)?,
+                            None => &input[1..],
+                        }
                     }
                 }
                 _ => &input[1..],
